@@ -117,11 +117,11 @@ def impl_trace(parses):
 
 
 # --------------------------------------------------------------------------- depth families (time oracle)
-def _chain(depth, fan, leaf, link, top="y = f{d}(7)\nmon.write(y)\n", params="v"):
+def _chain(depth, fan, leaf, link, top="y = f{d}(7)\nmon.write(y)\n", params="v", args="v"):
     """f0 = leaf; fk's body = link with {c} = one call of f(k-1), {cs} = fan calls joined by +"""
     out = [HEAD, f"def f0({params}):\n{leaf}"]
     for k in range(1, depth + 1):
-        call = f"f{k - 1}(v)" if params == "v" else f"f{k - 1}(v, w)"
+        call = f"f{k - 1}({args})"
         cs = " + ".join([call] * fan)
         out.append(f"def f{k}({params}):\n" + link.replace("{cs}", cs).replace("{c}", call).replace("{k}", str(k)))
     out.append(top.replace("{d}", str(depth)))
@@ -140,8 +140,11 @@ def families():
         F[f"float-sum:fan{fan}"] = lambda d, fan=fan: _chain(d, fan, "    return v * 0.5\n", "    return {cs} + v\n", top="y = f{d}(2.5)\nmon.write(y)\n")
     # called with two signatures at the top (two variants of every helper)
     F["two-signatures:fan2"] = lambda d: _chain(d, 2, "    return v + \";\"\n", "    return {cs} + v\n", top="y = f{d}(7)\nz = f{d}(2.5)\nw = f{d}(True)\nmon.write(y)\nmon.write(z)\n")
-    F["two-parameters:fan2"] = lambda d: _chain(d, 2, "    return v + w + \";\"\n", "    return {cs} + w\n", top="y = f{d}(7, 2.5)\nmon.write(y)\n", params="v, w")
+    F["two-parameters:fan2"] = lambda d: _chain(d, 2, "    return v + w + \";\"\n", "    return {cs} + w\n", top="y = f{d}(7, 2.5)\nmon.write(y)\n", params="v, w", args="v, w")
     F["annotated:fan3"] = lambda d: _chain(d, 3, "    return str(v) + \";\"\n", "    return {cs} + str(v)\n", params="v: int")
+    F["annotated-str:fan2"] = lambda d: _chain(d, 2, "    return v + \";\"\n", "    return {cs} + v\n", params="v: str", top="y = f{d}(\"a\")\nz = f{d}(7)\nmon.write(y)\n")
+    F["swapped-arguments:fan2"] = lambda d: _chain(d, 2, "    return v + w + \";\"\n", "    return {cs} + v\n", top="y = f{d}(7, 2.5)\nmon.write(y)\n", params="v, w", args="w, v")
+    F["literal-arguments:fan3"] = lambda d: _chain(d, 3, "    return v + \";\"\n", "    return {cs} + v\n", args="{k}")
     # the calls stand in other places than a return sum
     F["assign-then-return:fan3"] = lambda d: _chain(d, 3, "    s = v + \";\"\n    return s\n", "    s = {cs}\n    s = s + v\n    return s\n")
     F["condition:fan2"] = lambda d: _chain(d, 2, "    return v + 1\n", "    if {c} > 3:\n        return {c} + 1\n    return v\n")
@@ -155,7 +158,7 @@ def families():
         out = [HEAD]
         for k in range(d + 1):
             prev = f"f{k - 1}(v) + " if k else ""
-            out.append(f"def f{k}(v):\n    if v < 1:\n        return \";\"\n    return {prev}f{k}(v - 1) + f{k}(v - 2) + v\n")
+            out.append(f"def f{k}(v):\n    if v < 1:\n        return 1\n    return {prev}f{k}(v - 1) + f{k}(v - 2) + v\n")
         out.append(f"y = f{d}(7)\nmon.write(y)\n")
         return "".join(out)
     F["recursive:fan2"] = recursive
@@ -165,7 +168,7 @@ def families():
         for k in range(d + 1):
             nxt = (k + 1) % (d + 1)
             prv = (k - 1) % (d + 1)
-            out.append(f"def f{k}(v):\n    if v < 1:\n        return \";\"\n    return f{nxt}(v - 1) + f{prv}(v - 1) + v\n")
+            out.append(f"def f{k}(v):\n    if v < 1:\n        return 1\n    return f{nxt}(v - 1) + f{prv}(v - 1) + v\n")
         out.append("y = f0(7)\nmon.write(y)\n")
         return "".join(out)
     F["mutual-ring"] = mutual
